@@ -19,9 +19,9 @@ from tfv.props import c01, c02, c15, c18
 ID = "C16"
 LEVEL = "exploration"
 WORKERS = {"quick": 8, "thorough": 16}
-CASES = {"quick": 170, "thorough": 4000}  # state-machine runs (histories)
+CASES = {"quick": 320, "thorough": 4000}  # state-machine runs (histories)
 STEPS = {"quick": 30, "thorough": 60}
-BUDGET = {"quick": 50, "thorough": 560}
+BUDGET = {"quick": 80, "thorough": 560}
 RULE = (
     "history = Hypothesis rule-based state machine: an initial step draws a schema, co-resident engines of that schema (quick: default LRU, lru_cache(1) and one more; thorough: all five) with cache "
     "configurations {default LRU(512), lru_cache(1), lru_cache(2), custom dict decorator keyed by (query, schema), None} and a pool of "
@@ -81,6 +81,15 @@ def build_pool(c, schema, plan):
                 r = copy.deepcopy(r0)
                 r.update(kind="other_vars", variables=spec2["variables"], tree=spec2["tree"])
                 pool.append(r)
+    if c.maybe(40):
+        # two different introspection requests (refused ones, when the schema is @nonIntrospectable): what the first leaves
+        # behind - located errors, hidden elements - must not show in the second
+        r0, spec, ex = base[0]
+        for _ in range(2):
+            ir = c15.introspection_request(c, schema, dict(r0, doc=spec["doc"]))
+            r = copy.deepcopy(r0)
+            r.update(kind="introspection", query=print_document(ir["doc"]).text, op=None, variables={}, faults=[])
+            pool.append(r)
     target = max(len(pool) + 2, c.int(6, 10))
     while len(pool) < target:
         r0, spec, ex = c.choice(base)
